@@ -199,3 +199,6 @@ def run(ctx: common.Ctx):
             ctx.violation(f"{r['fn']}/{r['dtype']}/{cls}/{kind}",
                           f"{r['fn']}({r['dtype']}{r.get('shape')}, {r.get('params')}) {mode}: {kind}: {detail}",
                           {**{k: r.get(k) for k in ("fn", "dtype", "shape", "params", "inputs")}, "mode": mode, "kind": kind, "detail": detail})
+    # algorithm-level tie: Model/Search.lean (theorem Ndx.C12.searchsortedImpl_eq_count / searchsorted_correct)
+    from .. import searchtie
+    searchtie.run(ctx, 96 if quick else 800)
